@@ -1,5 +1,47 @@
-import Rtcm.Model.Names
-import Rtcm.Model.Socket
+import Rtcm.Lemmas.Decode
 import Rtcm.Gen.Tables
+/-
+  C06 — fields are never read past the end of the payload.
+-/
 namespace Rtcm
+
+abbrev T6 := Rtcm.Gen.tables
+
+/-- in the current tables the derived label fields occupy no bits -/
+theorem C06_labels_zero_width : LabelsZero T6 :=
+  labelsZero_of_tree T6 (by decide +kernel)
+
+/-- every single field read lies inside the supplied payload: the bit extraction succeeds exactly
+    when the field ends at or before the last payload bit -/
+theorem C06_extract_guard (p : Payload) (off w : Nat) :
+    (extract p off w).isSome = true ↔ off + w ≤ p.blen := by
+  unfold extract
+  split <;> simp [*]
+
+/-- a successful decode consumed no more bits than the payload has (all tables with zero-width
+    label fields; in particular the current ones) -/
+theorem C06_no_overread (p : Bytes) (id : Ident) (l : Nat) (d : List Item) (s : DState)
+    (h : decItems ⟨T6, Payload.ofBytes p, id, l⟩ d [] DState.init = .ok s) : s.off ≤ 8 * p.length :=
+  decode_within_payload T6 C06_labels_zero_width p id l d s h
+
+/-- A complete message truncated at any length that cuts into its last field is rejected: the
+    constructor does not return a message.  (`s.off` is the number of bits the complete decode
+    consumed; `8 * k < s.off` says the cut removes at least one needed bit — for a message without
+    trailing padding bytes that is every `k` below its length.) -/
+theorem C06_truncation_rejected (p : Bytes) (k l : Nat) (id : Ident) (d : List Item) (s : DState)
+    (hid : identity (p.take k) = .ok id) (hd : getDict T6 id = some d)
+    (hfull : decItems ⟨T6, Payload.ofBytes p, id, l⟩ d [] DState.init = .ok s)
+    (hk : 8 * k < s.off) :
+    construct T6 (some (p.take k)) l = .lib .type := by
+  unfold construct
+  simp only [hid, hd]
+  cases hdec : decItems ⟨T6, Payload.ofBytes (p.take k), id, l⟩ d [] DState.init with
+  | error e => rfl
+  | ok s' => exact absurd hdec (decode_truncated T6 C06_labels_zero_width p k id l d s hfull hk s')
+
+/-- non-vacuity: the 19-byte 1005 message consumes 152 bits (so a cut to 18 bytes is rejected) -/
+example : (match decItems ⟨T6, Payload.ofBytes [0x3e, 0xd0, 0, 3, 0, 0, 0, 0, 0, 0, 0, 0, 0, 0, 0, 0, 0, 0, 0], ⟨1005, none⟩, 1⟩
+      ((getDict T6 ⟨1005, none⟩).getD []) [] DState.init with | .ok s => s.off | .error _ => 0) = 152 := by
+  decide +kernel
+
 end Rtcm
